@@ -27,6 +27,29 @@ pub struct Session {
     pub cookies: BTreeMap<String, String>,
 }
 
+/// requests sent again because actix-http's slow-request timer refused them before dispatch (see `Session::request`)
+pub static TRANSPORT_408_RESENDS: std::sync::atomic::AtomicU64 = std::sync::atomic::AtomicU64::new(0);
+
+thread_local! {
+    /// what this thread's sessions sent and received, in order (runs of identical lines are counted): attached to
+    /// a violation so that the witness history can be read, not only its last response
+    pub static TRAIL: std::cell::RefCell<Vec<(String, u32)>> = const { std::cell::RefCell::new(Vec::new()) };
+}
+
+pub fn trail_push(line: String) {
+    TRAIL.with(|t| {
+        let mut t = t.borrow_mut();
+        match t.last_mut() {
+            Some((l, n)) if *l == line => *n += 1,
+            _ => t.push((line, 1)),
+        }
+    });
+}
+
+pub fn trail_take() -> Vec<String> {
+    TRAIL.with(|t| t.borrow_mut().drain(..).map(|(l, n)| if n > 1 { format!("{} (x{})", l, n) } else { l }).collect())
+}
+
 pub enum Body {
     None,
     Json(serde_json::Value),
@@ -48,7 +71,7 @@ impl Session {
     pub fn request_and_reset(&mut self, method: &str, path: &str, body: Body, after_ms: u64) -> Result<(), String> {
         let mut s = TcpStream::connect(("127.0.0.1", self.port)).map_err(|e| format!("connect: {}", e))?;
         s.set_nodelay(true).ok();
-        let bytes = self.build(method, path, body);
+        let bytes = self.build(method, path, &body);
         s.write_all(&bytes).map_err(|e| format!("write: {}", e))?;
         std::thread::sleep(Duration::from_millis(after_ms));
         // SO_LINGER with a zero timeout turns close() into a reset
@@ -59,10 +82,49 @@ impl Session {
             return Err("setsockopt(SO_LINGER) failed".into());
         }
         drop(s);
+        trail_push(format!("{} {} sent, connection reset after {} ms", method, path, after_ms));
         Ok(())
     }
 
+    /// One request, one reply. A reply `408` with an empty body is not an answer of the service: actix-http sends
+    /// it when its slow-request timer (5 s from accepting the connection) fires before it has read the request
+    /// head, i.e. before any handler is chosen, and closes the connection (h1/dispatcher.rs, poll_head_timer;
+    /// nothing in /repo/server produces that status). It happens when the machine is so loaded that the server's
+    /// worker does not get to read a request that was sent at once. The request was not delivered, so it is sent
+    /// again (counted in `TRANSPORT_408_RESENDS`); if it is still refused after several attempts the caller gets a
+    /// transport error, never a verdict.
     pub fn request(&mut self, method: &str, path: &str, body: Body) -> Result<Response, String> {
+        let mut attempt = 0;
+        loop {
+            let r = self.request_once(method, path, &body)?;
+            {
+                let what = match &body {
+                    Body::Json(v) => v.to_string(),
+                    _ => String::new(),
+                };
+                let mut answer: String = String::from_utf8_lossy(&r.body).chars().take(40).collect();
+                if let Ok(v) = serde_json::from_slice::<serde_json::Value>(&r.body) {
+                    if v.get("running_tasks").is_some() {
+                        let stored: Vec<String> = v["acs_per_strategy"].as_object().map(|o| o.iter().filter(|(_, e)| e["type"] != "None").map(|(k, e)| format!("{}:{}", k, e["type"].as_str().unwrap_or("?"))).collect()).unwrap_or_default();
+                        answer = format!("running {} stored {:?}", v["running_tasks"], stored);
+                    }
+                }
+                trail_push(format!("{} {} {} -> {} {}", method, path, what, r.status, answer));
+            }
+            if r.status == 408 && r.body.is_empty() {
+                attempt += 1;
+                TRANSPORT_408_RESENDS.fetch_add(1, std::sync::atomic::Ordering::Relaxed);
+                if attempt >= 6 {
+                    return Err(format!("{} {}: the server's slow-request timer answered 408 {} times (machine overloaded)", method, path, attempt));
+                }
+                std::thread::sleep(Duration::from_millis(300 * attempt));
+                continue;
+            }
+            return Ok(r);
+        }
+    }
+
+    fn request_once(&mut self, method: &str, path: &str, body: &Body) -> Result<Response, String> {
         let mut s = TcpStream::connect(("127.0.0.1", self.port)).map_err(|e| format!("connect: {}", e))?;
         s.set_read_timeout(Some(Duration::from_secs(120))).ok();
         s.set_nodelay(true).ok();
@@ -88,10 +150,10 @@ impl Session {
     }
 
     /// the bytes of one request (head with the session's cookies, then the payload)
-    fn build(&self, method: &str, path: &str, body: Body) -> Vec<u8> {
+    fn build(&self, method: &str, path: &str, body: &Body) -> Vec<u8> {
         let (ctype, payload): (Option<String>, Vec<u8>) = match body {
             Body::None => (None, Vec::new()),
-            Body::Json(v) => (Some("application/json".into()), serde_json::to_vec(&v).unwrap()),
+            Body::Json(v) => (Some("application/json".into()), serde_json::to_vec(v).unwrap()),
             Body::Form(fields) => {
                 let boundary = "----websimBoundary7MA4YWxkTrZu0gW";
                 let mut p = Vec::new();
